@@ -31,6 +31,9 @@ _MECARD_ESCAPE = {
 _VCARD_ESCAPE = {
     ord(','): '\\,',
     ord(';'): '\\;',
+    # A line break would end the content line (RFC 2426: encoded as \n)
+    ord('\n'): '\\n',
+    ord('\r'): '',
 }
 
 
